@@ -15,6 +15,7 @@ PARAMS = {  # property -> (quick: len, cuts), (thorough: len, cuts)
     "C02": ((4, 1), (5, 2)),
     "C03": ((5, 1), (6, 1)),
     "C04": ((4, 0), (5, 0)),
+    "C05": ((4, 0), (5, 0)),
     "C06": ((4, 1), (5, 1)),
     "C07": ((3, 3), (4, 3)),
     "C08": ((4, 1), (5, 1)),
@@ -144,13 +145,15 @@ def run(name, repo="/repo", work=None, tier="quick", prop=None, seed=0):
         j = {k: v for k, v in j.items() if k != "known_class_integration_point_ns"}
         j["violations"] = [v for v in j["violations"] if "namespace_uri" not in v["what"]]
     res["cases"] = j["cases"]
-    if "selectors" not in j and "encodings" not in j and not j.get("attr_mode") and not j.get("tb_mode"):
+    if "selectors" not in j and "encodings" not in j and not j.get("attr_mode") and not j.get("tb_mode") and not j.get("scope_mode"):
       res["bound"] = f"all strings over the {len(j['alphabet'])}-symbol alphabet {j['alphabet']!r} up to length {j['exhaustive_len']} + {j['seed_documents']} seed documents, every {j['max_cuts']}-cut chunking, 7 handler configurations"
     res["violations"] = [dict(what=v["what"], detail=json.dumps(v)) | v for v in j["violations"]]
     # violations the executor classifies under a known-finding class (reported separately so that they cannot mask others);
     # `check` prints KNOWN-FINDING only if known_findings.json lists a finding identified by that class, otherwise they are
     # ordinary violations
     res["classified"] = {k[len("known_class_"):]: v for k, v in j.items() if k.startswith("known_class_") and v}
+    if j.get("scope_mode"):
+        res["bound"] = f"all tag sequences over {j['alphabet']} up to length {j['exhaustive_len']} + {j['seed_documents']} seed documents + pseudo-random longer ones, each followed by distinct text, x 4 variants (no removal / remove / set_inner_content / remove_and_keep_content on `b`): text!(\"a\") and an on_end_tag handler on every element against a tree oracle"
     if j.get("tb_mode"):
         res["bound"] = f"{j['seed_documents']} hand-derived WHATWG conformance cases (foreign content, integration points, text-type switches), each with and without an element handler, under every 1-cut chunking"
     if j.get("attr_mode"):
